@@ -109,9 +109,11 @@ class Interconnect:
         async def proc_read():
             await master.rdaddr.valid
 
+            # the background range covers all addresses and is listed last
             for slv in self._all_slaves():
                 if slv.contains_addr(master.rdaddr.araddr):
                     slv.rd_active <<= True
+                    break
 
             await cohdl.expr(master.rddata.valid & master.rddata.ready)
 
@@ -125,6 +127,7 @@ class Interconnect:
             for slv in self._all_slaves():
                 if slv.contains_addr(master.wraddr.awaddr):
                     slv.wr_active <<= True
+                    break
 
             await cohdl.expr(master.wrresp.valid & master.wrresp.ready)
 
